@@ -110,6 +110,8 @@ func drive(prop string, r *rand.Rand, w *writer, n int) {
 		driveInflatePoly(r, w, n)
 	case "C10":
 		driveInflateOpen(r, w, n)
+	case "C08":
+		driveMink(r, w, n)
 	case "C04":
 		driveTree(r, w, n)
 	case "C09":
@@ -185,6 +187,15 @@ func reexec(b []byte, w *writer) {
 		}
 		old := e.Probes
 		execInflate(r, &e)
+		e.Probes = mergeProbes(e.Probes, old)
+		w.emit(&e)
+	case "Mink":
+		var e MinkEv
+		if err := json.Unmarshal(b, &e); err != nil {
+			fatal(err)
+		}
+		old := e.Probes
+		execMink(r, &e)
 		e.Probes = mergeProbes(e.Probes, old)
 		w.emit(&e)
 	case "TreeOp":
